@@ -334,11 +334,23 @@ def stable_hash(obj):
     return hashlib.sha1(json.dumps(obj, sort_keys=True, default=str).encode()).hexdigest()
 
 
-def ndjson_write(path, rows):
+def no_nulls(v):
+    """TLC's JSON reader has no null: an observation that could not be made becomes -1 (recursively)."""
+    if v is None:
+        return -1
+    if isinstance(v, dict):
+        return {k: no_nulls(x) for k, x in v.items()}
+    if isinstance(v, (list, tuple)):
+        return [no_nulls(x) for x in v]
+    return v
+
+
+def ndjson_write(path, rows, tla=False):
+    """`tla=True`: the file is read by a TLA+ trace specification (nulls are replaced, see no_nulls)."""
     Path(path).parent.mkdir(parents=True, exist_ok=True)
     with open(path, "w") as f:
         for r in rows:
-            f.write(json.dumps(r) + "\n")
+            f.write(json.dumps(no_nulls(r) if tla else r) + "\n")
 
 
 def ndjson_read(path):
